@@ -34,19 +34,19 @@ PROCS = {"quick": 6, "thorough": 12}
 INVS = ("Inv_C06_CostDecreases Inv_C06_AtMostOneLaunch Inv_C06_SpotToSpotFeature Inv_C06_SpotToSpotAlternatives "
         "Inv_C06_SpotToSpotSettles Inv_C06_NotWorseThanKeeping Inv_C06_EmptyHarmless Inv_C06_PodsSchedulable").split()
 WEAK = {"le": "price", "cheapest": "price", "noPin": "price", "s2sFlag": "price", "s2sFew": "price", "s2sNoTruncate": "price",
-        "sameType": "price", "twoReplacements": "price", "emptyCost": "pods", "noHome": "pods", "noRevalidate": "pods", "noReprice": "pods"}
+        "sameType": "price", "twoReplacements": "price", "emptyCost": "pods", "noHome": "pods", "noRevalidate": "pods", "noReprice": "pods", "ignoreAvail": "avail"}
 
 
 def closed_models(run):
     """Closed models, coverage, spec mutations: independent TLC jobs, run side by side."""
     import concurrent.futures as cf
     big = vlib.NCPU >= 16
-    models = [("Consolidation_MC.cfg", 5 if big else 3), ("Consolidation_MCPods.cfg", 3 if big else 2)]
+    models = [("Consolidation_MC.cfg", 5 if big else 3), ("Consolidation_MCPods.cfg", 3 if big else 2), ("Consolidation_MCAvail.cfg", 2)]
     if run.tier == "thorough":
-        models += [("Consolidation_MCFull.cfg", 8 if big else 4), ("Consolidation_MC3.cfg", 4), ("Consolidation_MC3c.cfg", 2)]
+        models += [("Consolidation_MCFull.cfg", 8 if big else 4), ("Consolidation_MC3.cfg", 4), ("Consolidation_MC3c.cfg", 2), ("Consolidation_MCAvailFull.cfg", 4)]
     if run.tier == "quick":
         # one TLC run per focus tries every weakening (Weak = "*price" / "*pods"): WeakDetect prints <<"REJ", rule>>
-        weak = ["Consolidation_WeakAll.cfg", "Consolidation_WeakAllMulti.cfg", "Consolidation_WeakAll3.cfg", "Consolidation_WeakAllPods.cfg"]
+        weak = ["Consolidation_WeakAll.cfg", "Consolidation_WeakAllMulti.cfg", "Consolidation_WeakAll3.cfg", "Consolidation_WeakAllPods.cfg", "Consolidation_WeakAllAvail.cfg"]
     else:
         weak = sorted(os.path.basename(c) for c in glob.glob(os.path.join(run.specdir, "Consolidation_Weak_*.cfg")))
 
@@ -65,7 +65,7 @@ def closed_models(run):
                 if int(m.group(3)) == 0 and m.group(1) != "Init"}
 
     zero, rejected, seen = None, [], set()
-    with cf.ThreadPoolExecutor(max_workers=5 if big else 2) as ex:
+    with cf.ThreadPoolExecutor(max_workers=6 if big else 2) as ex:
         fm = [ex.submit(model, j) for j in models]
         fw = [ex.submit(mutation, c) for c in weak]
         for f in fm:
@@ -117,7 +117,9 @@ def gen_grid(run):
 
 def check(run):
     run.rule = ("TLC draws price tables x removed-node sets from the grid of Consolidation.tla (3 types x 2 capacity types x 2 zones, "
-                "prices {1,2,3,5} x 1/8 $, zone zb same / overlay-priced / unavailable / not offered, 1-3 nodes) and enumerates the pods "
+                "prices {1,2,3,5} x 1/8 $, zone zb same / overlay-priced / unavailable / not offered, zone-za offerings of every capacity type "
+                "out of capacity independently, an available or exhausted capacity reservation, pools allowing each subset of capacity "
+                "types, 1-3 nodes) and enumerates the pods "
                 "grid (pod sizes, capacity-type selector, zero-cost pods, room on a remaining node); each scenario runs on the real "
                 "Single/MultiNodeConsolidation and Emptiness ComputeCommands (incl. validation) and a real Controller.Reconcile round; "
                 "directed churn during the validation wait, the spot-to-spot threshold ladder (13..20 cheaper types, minValues), a seeded "
